@@ -4,10 +4,10 @@ CONSTANTS
   Times = {0, 1}
   Versions = {"sig", "none"}
   Thresholds = {1, 2}
-  Starts = {0, 1}
+  Starts = {0}
   Specials = {"always", "never"}
   Timeouts = {1, 2}
-  MinHeights = {0, 6}
+  MinHeights = {6, 8}
   ForkFrom = 99
   Mining = TRUE
   Queries = FALSE
